@@ -21,6 +21,7 @@
 -/
 import UnytProofs.Lemmas.C12Sim
 import UnytProofs.Lemmas.C12Setup
+import UnytProofs.Lemmas.C12Conv
 import UnytProofs.Lemmas.C12Witness
 import UnytModel.Generated.RegistryC12Cfg
 
@@ -128,6 +129,49 @@ theorem unit_result_in_heap (s : RegState K) (q : String) (i : Nat) (u : UnitD K
         simp
 
 end general
+
+/-! ### using objects that outlived an edit -/
+
+section conversion
+variable {K : Type} [Add K] [Sub K] [Mul K] [Div K] [OfNat K 0] [OfNat K 1] [BEq K] [RPow K]
+variable (cfg : Cfg) (pre : Prefixes K) (parse : String → Except Err (PExpr K))
+
+/-- what two `Unit` objects without offset do to each other — `get_conversion_factor`, hence `to`,
+    `in_units`, `convert_to_units` and the rescale inside `+ - < ==` — is decided by the data the two
+    objects carry: the ratio of their stored scales, or `UnitConversionError` when their stored
+    dimensions differ.  It does not depend on the registry's state (table, caches, memo), on the
+    registry's identity, or on how the two units are spelled (`ei`, `ej` arbitrary) -/
+theorem heap_conversion_by_stored_data (s : RegState K) (i j : Nat) (ei ej : UExpr K)
+    (a b : UnitD K) (hi : s.objs[i]? = some a) (hj : s.objs[j]? = some b)
+    (ha : (a.offset == 0) = true) (hb : (b.offset == 0) = true) :
+    heapConv pre s i j ei ej =
+      if a.dim != b.dim then .error .UnitConversionError else .ok (a.scale / b.scale, none) := by
+  simp only [heapConv, hi, hj]
+  exact getConversionFactor_offset_free pre s.lut _ _ ha hb
+
+/-- `old_units_keep_value`, used: two objects that exist after a history `h` convert into each other
+    after ANY continuation `h'` (edits of their symbols included) exactly as they did before — a
+    pre-edit object is never re-read at the post-edit scale of a unit with the same name -/
+theorem old_units_convert_as_before (s0 : RegState K) (h h' : List (Op K)) (i j : Nat)
+    (ei ej ei' ej' : UExpr K) (a b : UnitD K)
+    (hi : (run cfg pre parse s0 h).objs[i]? = some a) (hj : (run cfg pre parse s0 h).objs[j]? = some b)
+    (ha : (a.offset == 0) = true) (hb : (b.offset == 0) = true) :
+    heapConv pre (run cfg pre parse s0 (h ++ h')) i j ei' ej' =
+      heapConv pre (run cfg pre parse s0 h) i j ei ej := by
+  rw [heap_conversion_by_stored_data pre _ i j ei' ej' a b
+        (old_units_keep_value cfg pre parse s0 h h' i a hi)
+        (old_units_keep_value cfg pre parse s0 h h' j b hj) ha hb,
+      heap_conversion_by_stored_data pre _ i j ei ej a b hi hj ha hb]
+
+/-- with offsets (temperature scales) `_get_conversion_factor` consults the table through
+    `_split_prefix` only; in a state coherent with the contents `c` that is the same as consulting
+    `c`: the string cache, the written-back entries and the id memo have no influence -/
+theorem conversion_independent_of_memo_layers (c : Lut K) (s : RegState K)
+    (h : Coherent pre parse c s) (u v : UnitV K) :
+    getConversionFactor pre s.lut u v = getConversionFactor pre c u v :=
+  getConversionFactor_refines pre c s.lut s.derived h.lut u v
+
+end conversion
 
 /-! ### the repaired machine: full strength -/
 
@@ -398,6 +442,14 @@ example : resolve pre (contents t0 ([.add "foo" foo2] ++ [.remove "foo"])) "foo"
     splitCandidate "kfoo" = some ("k", "foo") ∧
     safeRun Cfg.asIs pre parse (fresh t0) ([.add "foo" foo2] ++ [.remove "foo"]) = true := by
   decide +kernel
+
+open Witness in
+/-- `old_units_convert_as_before` is not vacuous: the pre-edit `foo` (2 m, cell 0) against the
+    post-edit `foo` (3 m, cell 1): factor 2/3 although both are spelled `foo` in one registry -/
+example : (match heapConv pre (run Cfg.asIs pre parse (fresh t0)
+      [.add "foo" foo2, .unit "foo", .modifyF "foo" 3, .unit "foo"]) 0 1 ⟨1, [("foo", 1)]⟩ ⟨1, [("foo", 1)]⟩ with
+    | .ok (f, none) => f == (2 : Rat) / 3
+    | _ => false) = true := by decide +kernel
 
 open Witness in
 /-- `old_units_keep_value` is not vacuous: the object built before the modification is cell 0 -/
